@@ -306,6 +306,12 @@ def standin_command(env: Env, path: tuple[str, ...], cmd: type) -> dict:
         if opt in base:
             skipped.append(name)
             continue
+        if info.annotation is bool:
+            r = standin_bool(env, path, base, name, info, cfg0)
+            n_cases += r[0]
+            bad += r[1]
+            covered.append(name)
+            continue
         triple = None
         for cand in CANDS:
             vals = []
@@ -357,10 +363,76 @@ def standin_command(env: Env, path: tuple[str, ...], cmd: type) -> dict:
     return {"cases": n_cases, "bad": bad, "covered": covered, "skipped": skipped}
 
 
+TRUE_SP = ["true", "True", "1", "yes", "on", "y", "t", "Y"]
+FALSE_SP = ["false", "False", "0", "no", "off", "n", "f"]
+INVALID_SP = ["maybe", "2", ""]
+
+
+def standin_bool(env: Env, path: tuple[str, ...], base: list[str], name: str, info: Any,
+                 cfg0: Any) -> tuple[int, list[str]]:
+    """Boolean options: every spelling pydantic accepts for a bool resolves to that value from the
+    environment, anything else is rejected with a message naming the variable; the file's TOML
+    booleans are used; --x / --no-x win over both."""
+    bad: list[str] = []
+    n = 0
+    ek = f"GALLIA_{name.upper()}"
+    opt, nopt = "--" + name.replace("_", "-"), "--no-" + name.replace("_", "-")
+    where = f"{' '.join(path)} {name}"
+    quick = os.environ.get("VERIF_TIER", "quick") != "thorough"
+    for want, spellings in ((True, TRUE_SP[::3] if quick else TRUE_SP),
+                            (False, FALSE_SP[::3] if quick else FALSE_SP)):
+        for sp in spellings:
+            c, e = env.parse(path, base, env={ek: sp})
+            n += 1
+            if c is None and ek not in e and "valid boolean" not in e:
+                continue  # refused by a constraint between options, not because of this value
+            if c is None or getattr(c, name) is not want:
+                bad.append(f"{where}: {ek}={sp!r} gives {getattr(c, name, None)!r} "
+                           f"({e.strip().splitlines()[-1][:80] if c is None and e.strip() else ''})"
+                           f", expected {want}")
+    for sp in INVALID_SP:
+        c, e = env.parse(path, base, env={ek: sp})
+        n += 1
+        if c is not None:
+            bad.append(f"{where}: invalid {ek}={sp!r} is not rejected (value "
+                       f"{getattr(c, name)!r})")
+        elif ek not in e:
+            bad.append(f"{where}: the rejection of {ek}={sp!r} does not name its source: "
+                       f"{e.strip().splitlines()[-1][:100] if e.strip() else ''!r}")
+    sec = info.config_section
+    for want in (True, False):
+        if sec is not None:
+            c, e = env.parse(path, base, file_kv={(sec, name): want})
+            n += 1
+            if c is None and name not in e:
+                continue
+            if c is None or getattr(c, name) is not want:
+                bad.append(f"{where}: file {sec}.{name} = {str(want).lower()} gives "
+                           f"{getattr(c, name, None)!r}")
+            c, e = env.parse(path, base, env={ek: str(not want).lower()},
+                             file_kv={(sec, name): want})
+            n += 1
+            if c is None and ek not in e and name not in e:
+                continue
+            if c is None or getattr(c, name) is not (not want):
+                bad.append(f"{where}: environment {not want} over file {want} gives "
+                           f"{getattr(c, name, None)!r}")
+        flag = opt if want else nopt
+        c, e = env.parse(path, base + [flag], env={ek: str(not want).lower()})
+        n += 1
+        if c is None:
+            continue  # this flag form does not exist for the option (e.g. const flags)
+        if getattr(c, name) is not want:
+            bad.append(f"{where}: {flag} with {ek}={str(not want).lower()} gives "
+                       f"{getattr(c, name)!r}")
+    return n, bad
+
+
 def standin_unit(chunk: int, n_chunks: int, tier: str):
     def harness(I: Interp) -> None:
         import logging
         logging.disable(logging.CRITICAL)
+        os.environ["VERIF_TIER"] = tier
         env = Env()
         tot = {"cases": 0, "bad": [], "covered": 0, "skipped": 0, "samples": []}
         try:
